@@ -102,6 +102,15 @@ class WorldError(Exception):
     pass
 
 
+class UnhashableError(Exception):
+    """An exception that defines == and therefore is not hashable."""
+
+    def __eq__(self, other):
+        return isinstance(other, UnhashableError) and self.args == other.args
+
+    __hash__ = None
+
+
 class OddError(LookupError):
     """An Exception subclass with an awkward str()."""
 
@@ -113,7 +122,8 @@ EXC = {
     'ValueError': ValueError, 'KeyError': KeyError, 'TypeError': TypeError,
     'RuntimeError': RuntimeError, 'OSError': OSError,
     'ZeroDivisionError': ZeroDivisionError, 'WorldError': WorldError,
-    'OddError': OddError, 'AttributeError': AttributeError,
+    'OddError': OddError, 'UnhashableError': UnhashableError,
+    'AttributeError': AttributeError,
     'StopIteration': StopIteration, 'SystemExit': SystemExit,
     'KeyboardInterrupt': KeyboardInterrupt, 'Exception': Exception,
     'NotImplementedError': NotImplementedError,
@@ -133,6 +143,16 @@ def raise_chained(exc, msg, chain=None):
             {}['inner']
         except KeyError:
             raise exc(msg)
+    elif chain == 'cause_self':
+        e = exc(msg)
+        raise e from e
+    elif chain == 'cause_cycle':
+        # replica raised from primary, primary raised from replica
+        primary = exc(msg)
+        try:
+            raise KeyError('replica') from primary
+        except KeyError as replica:
+            raise primary from replica
     elif chain == 'cause_group':
         raise exc(msg) from ExceptionGroup('grp', [ValueError('a'), KeyError('b')])
     raise exc(msg)
@@ -464,7 +484,9 @@ class World:
                 stream.flush()   # keep the text layer's pending output in order
             except Exception:
                 pass
-            stream.buffer.write(text.encode('utf-8'))
+            # rawhex: bytes that are not valid UTF-8 after the token
+            stream.buffer.write(text.encode('utf-8') +
+                                bytes.fromhex(w.get('rawhex', '')))
             try:
                 stream.buffer.flush()
             except Exception:
